@@ -406,12 +406,13 @@ def asan_failure(r):
     return None
 
 
-def runtime_standin(res, pid, module, name, seed, count, time_s, prefix=None, label=None, classify=None, known=None, crosscheck=False, asan=False):
+def runtime_standin(res, pid, module, name, seed, count, time_s, prefix=None, label=None, classify=None, known=None, crosscheck=False, asan=False,
+                    exhaustive=False, tier="quick"):
     """Bounded stand-in: the runtime form of a contract on seeded random inputs (never counted as proved).
     `classify(failure) -> known-finding obligation key or None` separates listed findings from new violations."""
     r = native.run_script(os.path.join(VERIF, "native", "runtime_check.py"), input_json={
         "module": module, "name": name, "seed": seed, "count": count, "time_s": time_s, "prefix": prefix, "log_cases": asan,
-        "max_failures": 300 if classify else 5},
+        "max_failures": (100000 if exhaustive else 300) if classify else 5, "exhaustive": exhaustive, "tier": tier},
         timeout=time_s + 600, asan=asan)
     if asan and len(r["stderr"]) >= 3900:
         pass
